@@ -635,3 +635,78 @@ pub fn c06(ctx: &Ctx, begin: &mut dyn FnMut(J)) -> Outcome {
     }
     out
 }
+
+/// C09 emitter: writes one file per case plus a JSON sidecar describing exactly what went in.
+/// The oracle (independent decoder) is pybbi/decode.py, driven by lib/c09.py.
+pub fn c09emit(ctx: &Ctx, begin: &mut dyn FnMut(J)) -> Outcome {
+    let mut r = Rng::derive(ctx.seed, 0xC09, ctx.case);
+    let mut out = Outcome::new();
+    let base = ctx.scratch.join(format!("c09_{}_{}", ctx.seed, ctx.case));
+    if ctx.case % 2 == 0 {
+        let small = r.chance(1, 2);
+        let case = gen_bw_case(&mut r, &BwGenCfg { allow_zero_len: true, huge_ok: true, small_slots: small, allow_unsorted_chroms: true, max_chroms: 6, force_exact: false });
+        begin(bw_desc(&case));
+        out.hash = case.hash.clone();
+        out.nontrivial = case.nontrivial;
+        let sink = MemSink::new();
+        let res = wr::write_bw(sink.clone(), &case.input, &case.opts, Some(&ctx.scratch), &case.extra);
+        match &res {
+            CallResult::Ok => {}
+            CallResult::Err(e) if e.starts_with("INDEX_") || e.contains("File is not sorted") => {
+                out.inconclusive = Some(format!("blocked_by:C18 {}", e));
+                return out;
+            }
+            other => {
+                out.inconclusive = Some(format!("blocked_by:C01 write failed: {}", other.short()));
+                return out;
+            }
+        }
+        let path = base.with_extension("bw");
+        if let Err(e) = std::fs::write(&path, sink.bytes()) {
+            out.inconclusive = Some(format!("HARNESS {}", e));
+            return out;
+        }
+        let side = J::obj()
+            .set("kind", "bigwig".into())
+            .set("file", J::s(path.to_string_lossy().to_string()))
+            .set("case", ctx.case.into())
+            .set("opts", case.opts.to_json())
+            .set("chroms", bw_input_json(&case.input))
+            .set("extra_chroms", J::A(case.extra.iter().map(|(n, s)| J::A(vec![J::s(n.clone()), (*s).into()])).collect()));
+        let _ = std::fs::write(base.with_extension("json"), side.to_string());
+    } else {
+        let small = r.chance(1, 2);
+        let case = gen_bb_case(&mut r, &BbGenCfg { allow_zero_len: true, no_zero_zero: true, small_slots: small, max_chroms: 6, ncols: None });
+        begin(bb_desc(&case));
+        out.hash = case.hash.clone();
+        out.nontrivial = case.nontrivial;
+        let sink = MemSink::new();
+        let res = wr::write_bb(sink.clone(), &case.input, &case.opts, case.autosql.clone(), Some(&ctx.scratch), &case.extra);
+        match &res {
+            CallResult::Ok => {}
+            CallResult::Err(e) if e.starts_with("INDEX_") || e.contains("File is not sorted") => {
+                out.inconclusive = Some(format!("blocked_by:C18 {}", e));
+                return out;
+            }
+            other => {
+                out.inconclusive = Some(format!("blocked_by:C02 write failed: {}", other.short()));
+                return out;
+            }
+        }
+        let path = base.with_extension("bb");
+        if let Err(e) = std::fs::write(&path, sink.bytes()) {
+            out.inconclusive = Some(format!("HARNESS {}", e));
+            return out;
+        }
+        let side = J::obj()
+            .set("kind", "bigbed".into())
+            .set("file", J::s(path.to_string_lossy().to_string()))
+            .set("case", ctx.case.into())
+            .set("opts", case.opts.to_json())
+            .set("autosql", case.autosql.clone().map(J::S).unwrap_or(J::Null))
+            .set("chroms", bb_input_json(&case.input))
+            .set("extra_chroms", J::A(case.extra.iter().map(|(n, s)| J::A(vec![J::s(n.clone()), (*s).into()])).collect()));
+        let _ = std::fs::write(base.with_extension("json"), side.to_string());
+    }
+    out
+}
